@@ -151,6 +151,9 @@ static void e_note_callback(void)
                 e_cb_unlocked = 1;
 }
 
+static char g_typed[H_NL + 2];
+static char p_upper(char ch);
+static _Bool p_name_char(char ch);
 static int e_io_read(char *ch)
 {
         e_note_callback();
@@ -160,6 +163,9 @@ static int e_io_read(char *ch)
         int r = nondet_int();
         e_rd_avail = (r != 0);
         e_rd_ch = c;
+        /* ghost: a name character accepted while the name is being typed extends the typed text */
+        if (r != 0 && h_obj.state == CAT_STATE_PARSE_COMMAND_CHAR && h_obj.length <= H_NL && p_name_char(p_upper(c)))
+                g_typed[h_obj.length] = p_upper(c);
         return r;
 }
 
